@@ -18,6 +18,7 @@
 #include <fcppt/signal/unregister/base.hpp>
 #include <fcppt/signal/unregister/function.hpp>
 
+#include <algorithm>
 #include <functional>
 #include <map>
 #include <memory>
@@ -145,6 +146,35 @@ std::string walk_fwd_post(L &l)
   return names(v);
 }
 
+// the same loop through the iterator's own public members (what fcppt::iterator::base forwards to)
+template <typename L>
+std::string walk_fwd_members(L &l)
+{
+  std::vector<std::string> v;
+  unsigned steps = 0;
+  auto it = l.begin();
+  auto const e = l.end();
+  while (!it.equal(e))
+  {
+    if (++steps > walk_cap)
+      return "overrun";
+    v.push_back(node_name(static_cast<base_t const *>(&it.dereference())));
+    it.increment();
+  }
+  // and back again to begin()
+  std::vector<std::string> w;
+  while (!it.equal(l.begin()))
+  {
+    if (++steps > 2 * walk_cap + 2)
+      return "overrun";
+    it.decrement();
+    w.push_back(node_name(static_cast<base_t const *>(&it.dereference())));
+  }
+  if (!std::equal(v.rbegin(), v.rend(), w.begin(), w.end()))
+    return "member-mismatch";
+  return names(v);
+}
+
 template <typename L>
 std::string walk_bwd(L &l)
 {
@@ -269,6 +299,8 @@ std::string list_dump()
         f = "const-mismatch";
       else if (walk_fwd_post(*lists[k]) != f || walk_fwd_post(cl) != f)
         f = "post-mismatch";
+      else if (walk_fwd_members(*lists[k]) != f || walk_fwd_members(cl) != f)
+        f = "member-mismatch";
       std::string b = walk_bwd(*lists[k]);
       if (walk_bwd(cl) != b)
         b = "const-mismatch";
@@ -488,13 +520,15 @@ auto make_callback(int f)
 {
   return [f](int arg)
   {
+    // the effect may destroy the connection this function object lives in: nothing is read from the closure afterwards
+    int const id = f;
     // a runaway iteration must end: the watchdog would catch it, but an exception is cheaper
     if (call_log.size() > walk_cap + 1)
       throw overrun_exc{};
-    call_log.push_back(f);
+    call_log.push_back(id);
     if (acts_on)
-      run_action(f);
-    return cb_fn(f, arg);
+      run_action(id);
+    return cb_fn(id, arg);
   };
 }
 
@@ -502,11 +536,12 @@ auto make_void_callback(int f)
 {
   return [f](int)
   {
+    int const id = f;
     if (call_log.size() > walk_cap + 1)
       throw overrun_exc{};
-    call_log.push_back(f);
+    call_log.push_back(id);
     if (acts_on)
-      run_action(f);
+      run_action(id);
   };
 }
 
@@ -813,6 +848,17 @@ std::string handle(std::vector<std::string> const &t)
     }
     return "ok" + list_dump() + " eq=" + (eq ? "1" : "0") + " ne=" + (ne ? "1" : "0");
   }
+  if (o == "IS" && t.size() == 3 && num(t[1], max_iters, a) && num(t[2], max_iters, b))
+  {
+    if (its[a].index() == 0 || its[a].index() != its[b].index())
+      return "bad-op";
+    // member swap of fcppt::iterator::base (self-swap when a == b)
+    if (auto *p = std::get_if<it_t>(&its[a]))
+      p->swap(std::get<it_t>(its[b]));
+    else
+      std::get<cit_t>(its[a]).swap(std::get<cit_t>(its[b]));
+    return "ok" + list_dump();
+  }
   if (o == "I*" && t.size() == 2 && num(t[1], max_iters, a))
   {
     if (its[a].index() == 0)
@@ -891,20 +937,22 @@ std::string handle(std::vector<std::string> const &t)
   }
   if (o == "HA" && t.size() == 3 && num(t[1], max_elems, a) && num(t[2], max_elems, b))
   {
-    if (a == b || held[b] < 0)
+    if (held[b] < 0)
       return "bad-op";
     unreg_saw.clear();
-    holders[a] = std::move(holders[b]); // an engaged target: unique_ptr move assignment destroys the old connection
-    held[a] = held[b];
-    held[b] = -1;
+    auto &src = holders[b]; // a == b: self-move-assignment, must leave the connection alone
+    holders[a] = std::move(src); // an engaged target: unique_ptr move assignment destroys the old connection
+    if (a != b)
+    {
+      held[a] = held[b];
+      held[b] = -1;
+    }
     return "ok" + sig_dump() + saw_suffix();
   }
   if (o == "HW" && t.size() == 3 && num(t[1], max_elems, a) && num(t[2], max_elems, b))
   {
-    if (a == b)
-      return "bad-op";
     unreg_saw.clear();
-    std::swap(holders[a], holders[b]);
+    std::swap(holders[a], holders[b]); // a == b: self-swap
     std::swap(held[a], held[b]);
     return "ok" + sig_dump() + saw_suffix();
   }
